@@ -330,7 +330,7 @@ def corpus():
     add({}, "value", "#{nil}", "any", expr="nil")
     add({}, "value", "#{''}", "string", expr="''")
     add({}, "value", "#{2097152.0 * 2.5}", "int", expr="2097152.0 * 2.5")
-    return cs
+    return cs + P.corpus_files("C18")
 
 
 # ------------------------------------------------------------------------------------------------
